@@ -87,7 +87,11 @@ NearPairs(fs) == {<<fs[i], fs[j]>> : i \in DOMAIN fs, j \in DOMAIN fs} \ {<<fs[i
 NearBP == {P("nearb", Pre \o <<SLet("Bundle", "x", pr[1]), SLet("Bundle", "y", pr[2])>>) : pr \in NearPairs(NearB)}
      \cup {P("nearb", Pre \o <<SLet("Bundle", "x", pr[1]), SLet("Bundle", "y", pr[2]), SLet("Bundle", "w", Bin("*", Ref("y"), Num(100)))>>) : pr \in NearPairs(SubSeq(NearB, 1, 6))}
      \cup {P("nearb", Pre \o <<SLet("Signal", "x", pr[1]), SLet("Signal", "y", pr[2])>>) : pr \in NearPairs(NearQ)}
-All == EachOps \cup Filters \cup Quants \cup Sels \cup Lits \cup Chains \cup SelPairs \cup NamedChains \cup NearBP
+SelOfNamed == {P("selnamed", Pre \o <<SLet("Bundle", "c", cb), SLet("Signal", "t", f), SLet("Bundle", "d", Bin("+", Ref("c"), Num(1)))>>) :
+                 cb \in {Bin("*", BB, Num(2)), CondE(Bin(">", BB, Num(0)), BB), Bin("+", BB, S)},
+                 f \in {Proj(Sel(Ref("c"), "signal-A"), TName("signal-X")), Sel(Ref("c"), "signal-A"), Bin("+", Sel(Ref("c"), "signal-A"), Num(1)),
+                        Proj(Bin("+", Sel(Ref("c"), "signal-A"), Sel(Ref("c"), "signal-B")), TName("signal-X")), Bin(">", Sel(Ref("c"), "signal-B"), Num(0))}}
+All == SelOfNamed \cup EachOps \cup Filters \cup Quants \cup Sels \cup Lits \cup Chains \cup SelPairs \cup NamedChains \cup NearBP
 ASSUME PrintT(<<"NPROGS", Cardinality(All)>>)
 ASSUME JsonSerialize(IOEnv.GEN_OUT, SetToSeq(All))
 =============================================================================
